@@ -2,7 +2,7 @@ SPECIFICATION Spec
 CONSTANTS Acct <- AcctCU
  KindsOf <- KindsAll
  BaseSet <- BaseAll
- MaxSteps = 24
+ MaxSteps = 26
  MaxSnap = 3
  WithSeal = TRUE
  FreeVals = TRUE
